@@ -175,6 +175,24 @@ func runF(op string, in M) (M, M) {
 		out["panic"], out["nil"] = p, x == nil || y == nil
 		d := ptOut(dx, dy)
 		out["dx"], out["dy"] = d["x"], d["y"]
+		// the caller owns the results: it changes them in place (negates a point, say); that must not reach the operands
+		// it passed in, nor anything the package keeps (the generator's coordinates, a table)
+		if p == "" {
+			a0, b0 := ptIn(in["x1"], in["y1"]), ptIn(in["x2"], in["y2"])
+			var cx, cy *big.Int
+			if x != nil && y != nil {
+				cx, cy = new(big.Int).Set(x), new(big.Int).Set(y)
+			}
+			for _, v := range []*big.Int{x, y, dx, dy} {
+				if v != nil {
+					v.Sub(sp, v).Lsh(v, 3)
+				}
+			}
+			if a.x.Cmp(a0.x) != 0 || a.y.Cmp(a0.y) != 0 || b.x.Cmp(b0.x) != 0 || b.y.Cmp(b0.y) != 0 {
+				out["panic"] = "verif: a result of Add / Double shares its big.Int with an operand (the caller changed the result, the operand changed)"
+			}
+			x, y = cx, cy
+		}
 		r := pt{x, y}
 		if x == nil || y == nil {
 			r = pt{nil, nil}
@@ -207,6 +225,7 @@ func runF(op string, in M) (M, M) {
 				abx, aby = Secp256k1().Add(ax, ay, bx, by)
 			}
 		})
+		scribble := []*big.Int{ax, ay, bx, by, sx, sy, abx, aby, mx, my, nx, ny}
 		isNil := ax == nil || ay == nil || bx == nil || by == nil || sx == nil || sy == nil || abx == nil || aby == nil || mx == nil || my == nil || nx == nil || ny == nil
 		out := M{"A": ptOut(ax, ay), "B": ptOut(bx, by), "S": ptOut(sx, sy), "AB": ptOut(abx, aby), "mulA": ptOut(mx, my), "negA": ptOut(nx, ny),
 			"sbytes": vInts(sbytes), "panic": p, "nil": isNil}
@@ -216,6 +235,14 @@ func runF(op string, in M) (M, M) {
 			A, B, S := pt{ax, ay}, pt{bx, by}, pt{sx, sy}
 			cert["pa"], cert["pb"], cert["ps"] = onCurveCert(A), onCurveCert(B), onCurveCert(S)
 			cert["sum"] = sumCert(A, B, S)
+		}
+		for _, v := range scribble { // results belong to the caller: changed in place after use (events that follow must not notice)
+			if v != nil {
+				v.Sub(sp, v).Lsh(v, 3)
+			}
+		}
+		if sgx.Cmp(Secp256k1().Params().Gx) != 0 || sgy.Cmp(Secp256k1().Params().Gy) != 0 {
+			out["panic"] = "verif: the curve's generator changed after the caller modified a result it was given"
 		}
 		return out, cert
 	case "ecb.par":
@@ -363,6 +390,14 @@ func TestVerifDriver(t *testing.T) {
 			addEv(c, neg(c), false)
 			addEv(c, crafted[(i+1)%len(crafted)], false)
 			addEv(g, c, false)
+		}
+		if i%4 == 1 && !c.isID() {
+			// the edge point as a RESULT: (c - Q) + Q and 2 * (c / 2), operands from the driver's reference arithmetic
+			q := refMul(rndScalar(), g)
+			addEv(refAdd(c, neg(q)), q, false)
+			half := refMul(new(big.Int).Rsh(new(big.Int).Add(sn, big.NewInt(1)), 1), c)
+			addEv(half, half, true)
+			addEv(half, half, false)
 		}
 	}
 	for k := 0; k < n; k++ {
